@@ -491,7 +491,9 @@ reconnects = 0
 lits = ['1', '-7', '2.5', '1.0e100', '0ca', '"hello"', '""', ':sym', '[]', '[1 2 3]', '[1 2.5]', '[[1 2] [3 4]]', '[1 [2 "x" [0cz :q]]]',
         '["a" "bc"]', ':{[1 2] ["k" [1 2]]}', '1%%0', '[1 "a" :s]', ':{["u" 1]}', '[[]]', '[1.5 [2 3]]',
         # values that compare/hash equal in Python but are of different Klong kinds (caches keyed by value must not conflate them)
-        '"a"', ':a', '1.0', '[1.0 2.0 3.0]', '0cs', '"s"', ':s', '0', '0.0', '"sym"', '"1"', '0c1']
+        '"a"', ':a', '1.0', '[1.0 2.0 3.0]', '0cs', '"s"', ':s', '0', '0.0', '"sym"', '"1"', '0c1',
+        # one-element lists (a list of one element is not that element) and other shape boundaries
+        '[5]', '[2.5]', '["abc"]', '[[7]]', '[[]]', '[:s]', '[0ca]', '[[1 2 3]]', '[[1] [2]]']
 names = ['va', 'vb', 'vc']
 results = []
 def record(form, text, remote, local):
@@ -534,7 +536,7 @@ def safe(f):
 
 # deterministic prelude: values that are ==/hash-equal in Python but of different Klong kinds, through every
 # form and in both orders (a transport-level cache keyed by value would conflate them)
-kind_groups = [['0ca', '"a"', ':a'], ['1', '1.0'], ['0', '0.0'], ['"s"', '0cs', ':s'], ['[1 2 3]', '[1.0 2.0 3.0]'], ['"1"', '0c1']]
+kind_groups = [['[5]', '5'], ['["abc"]', '"abc"'], ['[[7]]', '[7]'], ['[2.5]', '2.5'], ['0ca', '"a"', ':a'], ['1', '1.0'], ['0', '0.0'], ['"s"', '0cs', ':s'], ['[1 2 3]', '[1.0 2.0 3.0]'], ['"1"', '0c1']]
 plan = []
 for g in kind_groups:
     for order in (g, g[::-1]):
@@ -563,6 +565,9 @@ def deterministic_blocks():
             client['pair'] = pr; on_loop(client, cloops, 'dcli,pair')
         safe(dsetarr_); twin[KGSym('va')] = on_loop(client, cloops, arr_)
         r = safe(lambda: on_loop(client, cloops, 'cli("va*va")')); l = safe(lambda: twin('va*va')); record('intarr', 'va::%%s; va*va' %% arr_, r, l)
+    for t_ in ['1#v', 'v?2', ',7', '1#"abc"', '[1 2 3]?3', ',,7', '1_[1 2]']:
+        if hung: return
+        r = safe(lambda: on_loop(client, cloops, 'cli("%%s")' %% t_.replace('"', '""'))); l = safe(lambda: twin(t_)); record('singleton', t_, r, l)
     for body_, args_, tw_ in [('{q(x)+y}', '(3;4)', '{sq(x)+y}(3;4)'), ('{q(x)+y+z}', '(3;4;5)', '{sq(x)+y+z}(3;4;5)'),
                               ('{(q(y))+x}', '(3;4)', '{(sq(y))+x}(3;4)'), ('{n0()+x}', '(7)', '{nil()+x}(7)'),
                               ('{q2(x;y)+z}', '(1;2;3)', '{add(x;y)+z}(1;2;3)'), ("{q(x)}'", '[1 2 3]', "{sq(x)}'[1 2 3]")]:
